@@ -1,7 +1,7 @@
 (* Entry.v — single extracted entry point [run]: request = VList [VStr name; arg].
    All marshalling is done here in Gallina so that ocaml/driver.ml stays generic. *)
 From Coq Require Import ZArith List Bool String Ascii.
-From Verif Require Import PyStr Normalize NormalizeGen.
+From Verif Require Import PyStr Normalize NormalizeGen Util UtilGen.
 Import ListNotations.
 Open Scope Z_scope.
 
@@ -18,6 +18,20 @@ Definition run_named (name : str) (arg : pval) : pval :=
   if is_name name "norm" then
     match arg with VStr s => VStr (run_ops parse_norm_ops s) | _ => VErr "arg" end
   else if is_name name "call_none" then VStr (run_ops parse_norm_ops (call_input call_none_value None))
+  else if is_name name "escape" then
+    match arg with VList [VStr s; VBool q] => VStr (run_escape escape_ops q s) | _ => VErr "arg" end
+  else if is_name name "unescape" then
+    match arg with VStr s => VStr (unescape T s) | _ => VErr "arg" end
+  else if is_name name "html_unescape" then
+    match arg with VStr s => VStr (html_unescape T s) | _ => VErr "arg" end
+  else if is_name name "escape_url" then
+    match arg with
+    | VStr s => match escape_url T escape_url_safe s with Some t => VStr t | None => VNone end
+    | _ => VErr "arg" end
+  else if is_name name "safe_entity" then
+    match arg with VStr s => VStr (safe_entity T escape_ops s) | _ => VErr "arg" end
+  else if is_name name "unikey" then
+    match arg with VStr s => VStr (run_unikey T unikey_ops s) | _ => VErr "arg" end
   else VErr "unknown function".
 
 Definition run (req : pval) : pval :=
